@@ -790,6 +790,13 @@ impl<P: RuntimeProvider + Send + Sync> SqliteZoneHandler<P> {
                     //  Update RR, otherwise replace the CNAME Zone RR with the CNAME Update
                     //  RR.
 
+                    // the only SOA of a zone is the one at its apex, "if the TYPE is SOA and there
+                    //  is no Zone SOA RR [...] the Update RR is ignored"
+                    if rr.record_type() == RecordType::SOA && rr_name != *self.origin() {
+                        info!("ignoring SOA record below the zone apex: {rr:?}");
+                        continue;
+                    }
+
                     // zone     rrset    rr       Add to an RRset
                     info!("upserting record: {rr:?}");
                     let upserted = self.in_memory.upsert(rr.clone(), serial).await;
